@@ -193,6 +193,20 @@ def template(tid):
         v[...] = [1, 2, 1]
         v = f.createVariable('Q', 'd', ('t', 'x'))
         v[...] = [[1, 2], [3, 2], [5, 1]]
+    elif tid in ('T12', 'T13'):
+        # the same file with narrow (T12) and wide (T13) storage types: a
+        # binary operator between them must give the exact results (int16
+        # products beyond 32767, float32 against float64)
+        f.createDimension('t', 2).setunlimited(True)
+        f.createDimension('x', 2)
+        it, ft = ('h', 'f') if tid == 'T12' else ('i', 'd')
+        v = f.createVariable('C', it, ('t', 'x'))
+        v[...] = [[200, 300], [150, 181]]
+        v = f.createVariable('R', ft, ('t', 'x'))
+        v[...] = [[3, 1000], [70, 12]]
+        v = f.createVariable('CM', it, ('t', 'x'), fill_value=-1)
+        v[...] = np.ma.masked_array([[250, 255], [128, 129]],
+                                    mask=[[0, 1], [0, 0]])
     elif tid == 'T11':
         # a variable that uses one dimension twice (an averaging kernel)
         f.createDimension('t', 2).setunlimited(True)
